@@ -11,7 +11,8 @@ import (
 	"golang.org/x/tools/go/ssa"
 )
 
-var lockRe = `^\(\*sync\.(RW)?Mutex\)\.(Lock|RLock)$`
+// sync.Mutex/RWMutex, or their go-deadlock stand-ins selected by the `deadlock` build tag (lib/sync)
+var lockRe = `^\(\*(sync|github\.com/sasha-s/go-deadlock)\.(RW)?Mutex\)\.(Lock|RLock)$`
 
 func unlockFor(lock string) string {
 	if strings.HasSuffix(lock, ".RLock") {
@@ -109,7 +110,7 @@ func (c *Ctx) CriticalSection(fn *ssa.Function, mtxRe, desc string, body SinkSel
 	}
 	isUnlock := func(in ssa.Instruction) bool {
 		cl, ok := in.(*ssa.Call) // a deferred unlock runs at exit and is fine
-		return ok && re(`^\(\*sync\.(RW)?Mutex\)\.(Unlock|RUnlock)$`).MatchString(calleeNameNoPath(&cl.Call)) && len(cl.Call.Args) > 0 && re(mtxRe).MatchString(pathOf(cl.Call.Args[0]))
+		return ok && re(`^\(\*(sync|github\.com/sasha-s/go-deadlock)\.(RW)?Mutex\)\.(Unlock|RUnlock)$`).MatchString(calleeNameNoPath(&cl.Call)) && len(cl.Call.Args) > 0 && re(mtxRe).MatchString(pathOf(cl.Call.Args[0]))
 	}
 	locks := findInstrs(fn, isLock)
 	bodies := findInstrs(fn, body)
